@@ -115,6 +115,30 @@ class Env:
         del self.vars[name]
 
 
+class GhostIterable:
+    """protocol object standing for a collection of unknown size in a `for` loop (see Interp.s_For); contracts subclass it"""
+
+    reversed = False
+
+    def init(self, interp, env):
+        pass
+
+    def havoc(self, interp, env):
+        pass
+
+    def element(self):
+        raise NotImplementedError
+
+    def step(self, interp, env, broke):
+        pass
+
+    def exit(self, interp, env):
+        pass
+
+    def __iter__(self):
+        raise Unsupported("native iteration over a ghost collection")
+
+
 class IFunc:
     """a function object created by interpreting a `def` / `lambda` inside interpreted code"""
 
@@ -740,7 +764,28 @@ class Interp:
         return iter(v)
 
     def s_For(self, s, env):
-        it = self.iterate(self.eval(s.iter, env))
+        itv = self.eval(s.iter, env)
+        if isinstance(itv, GhostIterable):
+            # loop over a collection of UNKNOWN size: cut the loop with the contract's invariant protocol -
+            #   init(env): the invariant holds on entry;  havoc(env): arbitrary state satisfying the invariant;
+            #   one generic iteration of the real body;  step(env): the invariant is re-established;
+            #   exit(env): arbitrary invariant state for the code after the loop
+            itv.init(self, env)
+            itv.havoc(self, env)
+            self.assign(s.target, itv.element(), env)
+            broke = False
+            try:
+                self.exec_block(s.body, env)
+            except _Break:
+                broke = True
+            except _Continue:
+                pass
+            itv.step(self, env, broke)
+            itv.exit(self, env)
+            if not broke:
+                self.exec_block(s.orelse, env)
+            return
+        it = self.iterate(itv)
         for x in it:
             self.assign(s.target, x, env)
             try:
@@ -1472,6 +1517,9 @@ class SymSet(list):
 def _m_enum(interp, f, args, kw):
     if f is reversed:
         x = args[0]
+        if isinstance(x, GhostIterable):
+            x.reversed = True
+            return x
         if isinstance(x, (list, tuple, str, range, dict)):
             return reversed(x)
         return reversed(list(interp.iterate(x)))
